@@ -123,21 +123,35 @@ func VerifC18_FstreeOps() {
 }
 
 func VerifC18_FstreeQuery() {
-	root := "/r/db"
+	root := rt.Root("/r/db")
+	parent := root[:len(root)-len("/db")]
 	fst := &FSTree{name: "t", basePath: root}
 	n := 4
 	if rt.Thorough() {
 		n = 6
 	}
 	prefix := rt.StrN("prefix", 0, n)
-	// candidate directory entries around the root
-	rt.WalkEntry("/r/db/a", false)
-	rt.WalkEntry("/r/db/d", true)
-	rt.WalkEntry("/r/db/d/b", false)
-	rt.WalkEntry("/r/db2", true)
-	rt.WalkEntry("/r/db2/x", false)
-	rt.WalkEntry("/r/dbx", false)
-	rt.WalkEntry("/r/o", false)
+	for i := 0; i < len(prefix); i++ {
+		rt.Assume(prefix[i] != 0)
+	}
+	// candidate directory entries around the root (natively the sandbox holds
+	// the same siblings, and two records inside the root)
+	rt.WalkEntry(root, true)
+	rt.WalkEntry(root+"/a", false)
+	rt.WalkEntry(root+"/d", true)
+	rt.WalkEntry(root+"/d/b", false)
+	rt.WalkEntry(parent, true)
+	rt.WalkEntry(parent+"/db2", true)
+	rt.WalkEntry(parent+"/db2/x", false)
+	rt.WalkEntry(parent+"/dbx", false)
+	rt.WalkEntry(parent+"/o", false)
+	if !rt.Symbolic() {
+		for _, k := range []string{"a", "d/b"} {
+			w, _ := record.NewWrapper("t:"+k, &record.Meta{}, 'J', []byte("{}"))
+			w.UpdateMeta()
+			_, _ = fst.Put(w)
+		}
+	}
 	rt.FsFaults(1)
 	q := query.New("t:" + prefix)
 	if _, err := q.Check(); err != nil {
@@ -153,7 +167,10 @@ func VerifC18_FstreeQuery() {
 	if err != nil {
 		return
 	}
-	for range it.Next {
+	for r := range it.Next {
+		// no record from outside the root is returned
+		k := r.DatabaseKey()
+		rt.Assert(!(len(k) >= 2 && k[0] == '.' && k[1] == '.'), "fstreequery/no-record-from-outside-the-root")
 	}
 	for i := 0; i < rt.FsLen(); i++ {
 		op := rt.FsOp(i)
@@ -161,5 +178,6 @@ func VerifC18_FstreeQuery() {
 			rt.Assert(inside(root, rt.FsPath(i)), "fstreequery/reads-inside-root")
 		}
 	}
+	rt.Assert(!rt.NativeEscapes(), "fstreequery/reads-inside-root")
 	rt.Reach("fstreequery-end")
 }
